@@ -140,12 +140,12 @@ def run(ctx, res):
     for k in range(1, maxk + 1):
         for a in ALPHABET:
             tasks.append((k, [a]))
-    accs = core.pool_map(_task, ctx.rot(tasks))
+    accs = core.task_map(_task, ctx.rot(tasks))
     edits = [V2MIN + " " + V31 + " " + V2OPT, V31 + "," + V31X + "\n" + V30, "(" + V2MIN + ")" + V2PERM,
              "x" + V31OPT + ". " + V2MIN, V2MIN + "/" + V2MIN, "7.5/" + V31 + " 7.5/" + V2MIN,
              V40 + " " + V2OPT, "CVSS:3." + V2MIN + " " + V30, V2OPT + "\n" + V2OPT + " " + V31OPT,
              "é" + V30 + "é" + V2PERM]
-    accs += core.pool_map(_edit_task, [[e] for e in edits])
+    accs += core.task_map(_edit_task, [[e] for e in edits])
     extra = sweep.new_acc()
     for text in ["", " ", "A" * 26, ":" * 30, "/" * 26, "CVSS:3.1/" * 5, V2MIN * 3, (V2MIN + " ") * 20,
                  "CVSS:3.1/" + "A" * 25, "CVSS:3.1/" + "A" * 26, V31[:-1], V2MIN[:-1], V2MIN + "x"]:
@@ -177,3 +177,7 @@ def run(ctx, res):
 def replay(case):
     why, obs = judge(case["input"])
     return bool(why), why or "ok: %r" % (obs,)
+
+
+def replay_task(case):
+    return core.replay_func_task(case)
